@@ -24,7 +24,12 @@ static Point64 P(int64_t x, int64_t y) { return Point64(x, y, nondet_i64()); }
 
 extern "C" void harness_z_accounting() {
   Paths64 subj(1), clip(1);
-#if GEOM == 0   // two triangles crossing in general position: 6 crossings... (intersection is a hexagon-like polygon)
+#if GEOM == 2   // two overlapping SUBJECT triangles and a distant clip: Difference (same-type crossings, local minima at crossings)
+  subj.resize(2);
+  subj[0].push_back(P(0, 0)); subj[0].push_back(P(100, 10)); subj[0].push_back(P(20, 90));
+  subj[1].push_back(P(10, 50)); subj[1].push_back(P(90, -5)); subj[1].push_back(P(80, 85));
+  clip[0].push_back(P(200, 200)); clip[0].push_back(P(220, 200)); clip[0].push_back(P(210, 220));
+#elif GEOM == 0   // two triangles crossing in general position: 6 crossings... (intersection is a hexagon-like polygon)
   subj[0].push_back(P(0, 0)); subj[0].push_back(P(100, 10)); subj[0].push_back(P(20, 90));
   clip[0].push_back(P(10, 50)); clip[0].push_back(P(90, -5)); clip[0].push_back(P(80, 85));
 #else           // nested squares sharing no edges: no intersections, no callback
@@ -38,16 +43,16 @@ extern "C" void harness_z_accounting() {
   if (with_cb) c.SetZCallback(zcb);
   c.AddSubject(subj); c.AddClip(clip);
   Paths64 sol;
-  bool ok = c.Execute(ClipType::Intersection, FillRule::NonZero, sol);
+  bool ok = c.Execute(GEOM == 2 ? ClipType::Difference : ClipType::Intersection, FillRule::NonZero, sol);
   VA(ok);
   VA(sol.size() == 1); ASSUME(sol.size() == 1);
   const Path64& s = sol[0];
   VA((int64_t)s.size() == (int64_t)EXPECT_2);
-  for (size_t i = 0; i < 8; ++i) {
+  for (size_t i = 0; i < 16; ++i) {
     if (i >= s.size()) break;
     const Point64& v = s[i];
     bool is_input = false, z_from_input = false;
-    for (int k = 0; k < 2; ++k) { const Path64& in = k ? clip[0] : subj[0]; for (size_t j = 0; j < in.size(); ++j) if (in[j].x == v.x && in[j].y == v.y) { is_input = true; if (in[j].z == v.z) z_from_input = true; } }
+    for (int k = 0; k < 3; ++k) { if (k == 2 && subj.size() < 2) break; const Path64& in = k == 0 ? subj[0] : k == 1 ? clip[0] : subj[1]; for (size_t j = 0; j < in.size(); ++j) if (in[j].x == v.x && in[j].y == v.y) { is_input = true; if (in[j].z == v.z) z_from_input = true; } }
     bool from_cb = false;
     for (int k = 0; k < 16; ++k) { if (k >= g_ncb) break; if (g_cb[k].x == v.x && g_cb[k].y == v.y && g_cb[k].z == v.z) from_cb = true; }
     if (is_input) VA(z_from_input || from_cb);
@@ -56,7 +61,7 @@ extern "C" void harness_z_accounting() {
   }
   if (!with_cb) VA(g_ncb == 0);
   // x,y do not depend on the Z labels: the vertex multiset is the concrete one of the plain build (checked natively by the self-test)
-  int64_t sx = 0, sy = 0; for (size_t i = 0; i < 8; ++i) { if (i >= s.size()) break; sx += s[i].x; sy += s[i].y; }
+  int64_t sx = 0, sy = 0; for (size_t i = 0; i < 16; ++i) { if (i >= s.size()) break; sx += s[i].x; sy += s[i].y; }
   out_i64(sx); out_i64(sy);
   VA(sx == (int64_t)EXPECT_0 && sy == (int64_t)EXPECT_1);   // values printed by the plain build (eng_plain.cpp), obtained at check time
   verif_reach();
